@@ -52,3 +52,41 @@ pub fn main(args: &[String]) -> i32 {
     println!("{}", json!({"buffers": sizes.len(), "bytes": bytes, "checksum": checksum, "rounds": sizes.len()}));
     0
 }
+
+
+/// C20: a HOT KEY - one key overwritten tens of thousands of times faster than the write buffer flushes, so that a
+/// long chain of superseded generations (each linked to its successor) hangs off the one generation that is on the
+/// device; when the newest generation becomes durable the whole chain is released at once.  Releasing it must not
+/// depend on its length (stack depth).  Run in the AddressSanitizer build and in the plain one.
+pub fn hotkey(args: &[String]) -> i32 {
+    let o = Opts::parse(args);
+    let burst: usize = o.num("burst", 120_000);
+    let rounds: usize = o.num("rounds", 2);
+    let dir = o.get("dir").unwrap_or("/dev/shm").to_string();
+    let path = format!("{dir}/hotkey_{}.feox", std::process::id());
+    let _ = std::fs::remove_file(&path);
+    crate::util::watchdog::start(o.num("watchdog", 120));
+    let store = feoxdb::FeoxStore::builder().device_path(path.clone()).file_size(64 * 1024 * 1024).enable_ttl(true)
+        .build().expect("build store");
+    store.insert(b"hot", b"generation 0").expect("insert");
+    store.insert(b"cold", b"bystander").expect("insert");
+    store.flush().expect("flush");
+    let mut n = 0u64;
+    for r in 0..rounds {
+        for _ in 0..burst {
+            n += 1;
+            store.insert(b"hot", format!("generation {n}").as_bytes()).expect("overwrite");
+        }
+        crate::util::watchdog::beat(&format!("hotkey: flush after burst {r}"));
+        store.flush().expect("flush after the burst");
+        let v = store.get(b"hot").expect("get hot");
+        if v != format!("generation {n}").as_bytes() || store.get(b"cold").expect("get cold") != b"bystander" {
+            println!("{}", json!({"wrong_value_after_burst": r}));
+            return 4;
+        }
+    }
+    drop(store);
+    let _ = std::fs::remove_file(&path);
+    println!("{}", json!({"rounds": rounds, "overwrites": n}));
+    0
+}
